@@ -742,7 +742,7 @@ func (chainEngine) Corpus() []Case {
 
 /**************** generator ****************/
 
-var chainCodes = []int{200, 201, 204, 301, 400, 401, 403, 404, 418, 500, 503, 0}
+var chainCodes = []int{200, 201, 204, 301, 400, 401, 403, 404, 418, 500, 503, 0, 600, 799, 999}
 
 func chainActsStr(as []string) string {
 	if len(as) == 0 {
